@@ -3,6 +3,7 @@ package checks
 import (
 	"encoding/json"
 	"fmt"
+	"sort"
 
 	tq "github.com/facebookincubator/tacquito"
 
@@ -145,8 +146,13 @@ func c02Value(c *Ctx, s layoutSpec, m *ref.Msg) {
 
 func lensOf(m *ref.Msg) string {
 	s := ""
-	for k, v := range m.S {
-		s += fmt.Sprintf("%s%d,", k, len(v))
+	keys := make([]string, 0, len(m.S))
+	for k := range m.S {
+		keys = append(keys, k)
+	}
+	sort.Strings(keys)
+	for _, k := range keys {
+		s += fmt.Sprintf("%s%d,", k, len(m.S[k]))
 	}
 	for _, a := range m.Args {
 		s += fmt.Sprintf("a%d,", len(a))
